@@ -25,6 +25,7 @@ ASSUMPTIONS = [
     "for device settings the project field is not judged (no project value exists among the device-settings naming values)",
 ]
 TIMEOUT = {"quick": 900, "thorough": 4 * 3600}
+OPTIMIZED_SHARDS = ("sweep02",)  # these shards also run under python -O
 NSH = 16
 
 NAMES_Q = [None, "x", "My Project 1", "(version 07)", "a (version 07)", "12-34-56", "Zutritt Tür", "Reader{0}", "a{}b", "x}", "{version}", "{{site}}", "100%s", "%(name)s %d", "back\\slash \\1", "ends with blank ", "ends with tab\t", "ends with nbsp\u00a0", " ", " leading blank", "two  blanks  "]
